@@ -34,6 +34,9 @@ PROP = [  # (subject fragment, property ids, key that used to be reported)
  ('binary file of a combined diff was reported without its name', 'C14', "c14:header-missing:binary_cc ('diff --cc F' + 'Binary files differ' rendered with no file name)"),
  ("line of diff -r output was dropped after a file section", 'C14,C04', "c14:header-missing:binary_bare (bare 'Binary files X and Y differ' after a file section of diff -ru output lost)"),
  ("--color-only emitted decoration lines for", 'C02', "c02:line-count:* (--color-only --file-style 'blue box': 11 output lines for 7 input lines)"),
+ ("--show-config and --version reported BrokenPipe as an error", 'C18', "c18:reader-gone:status-1 (delta --show-config / --version with a closed stdout: exit 1 and an error message)"),
+ ("--help, --parse-ansi and --generate-completion failed loudly", 'C18', "c18:fault:status-1 (--help), c18:fault:crash:panic|delta::subcommands::parse_ansi::parse_ansi|failed printing to stdout, c18:fault:crash:panic|...generate_completion_file|Failed to write to generated file"),
+ ("headers of sections without ---/+++ lines ignored --relative-paths", 'C19,C14', "c19:file-text / c19:file-target:file (mode-only / empty added / removed sections under --relative-paths + GIT_PREFIX: name not relativized, link to <root>/<prefix>/<name>)"),
 ]
 log = subprocess.run(['git', '-C', '/repo', 'log', '--format=%H%x09%s', '--reverse'], stdout=subprocess.PIPE).stdout.decode().splitlines()
 fixes = [l.split('\t', 1) for l in log if '\tfix:' in l]
